@@ -222,8 +222,9 @@ def add_backfills(steps, rnd, count):
         missing = gap_of(own)[0] or [0]
         plan = {}
         mode = rnd.random()
+        pok = (0.5 if mode < 0.8 else 1.0) * min(1.0, 24.0 / len(missing))   # at most a few dozen fills per call
         for q in missing:
-            plan[str(q)] = "ok" if rnd.random() < (0.5 if mode < 0.8 else 1.0) else "404"
+            plan[str(q)] = "ok" if rnd.random() < pok else "404"
         if mode < 0.55 and missing:                # one misbehaviour at a chosen position k (first, last, anywhere)
             k = rnd.choice([missing[0], missing[-1], rnd.choice(missing)])
             plan[str(k)] = rnd.choice(FAULTS)
